@@ -147,13 +147,18 @@ check_bin(int op, const R *a, size_t ca, const R *b, size_t cb, const res_t *o) 
 	if (!bad) vh_nontrivial();
 }
 
+static int
+bin_is_core(int op) { return (B_ADD == op || B_SUB == op || B_MULT == op || B_DIV_QR == op || B_DIV_R == op || B_CMP == op); }
 static void
-run_bin_pair(int op, const vset_t *sa, const vset_t *sb) {
+run_bin_pair(int op, const vpair_t *vp) {
+	const vset_t *sa = vp->a, *sb = vp->b;
 	size_t i, j, ca; R a, b; res_t r1, r2;
 
+	if (vp->core_only && !bin_is_core(op)) return;
 	for (i = 0; i < sa->n; i ++) {
 		vs_get(sa, i, &a);
 		for (ca = cap_min(&a); ca <= MAXCAP; ca ++) {
+			if (vp->lite && ca != ((B_MULT == op) ? 3u : 2u)) continue;	/* exhaustive 1x2-digit sets: the capacity where both overflow and success occur */
 			if (!vh_begin(bin_name[op])) continue;
 			d_op = bin_name[op]; d_a = a; d_cap = ca; d_set = vs_name(sb);
 			vh_publish_desc();
@@ -163,6 +168,12 @@ run_bin_pair(int op, const vset_t *sa, const vset_t *sb) {
 				cb = cap_alt(&b, j);
 				cr = 1 + ((i + j) % MAXCAP);	/* capacity of a separate result/remainder */
 				CALL_COUNT();
+				if (vp->lite) {
+					g_fill = (j & 2) ? 0x00 : 0xA5;
+					exec_bin(op, &a, ca, &b, cb, cr, g_fill, &r1);
+					check_bin(op, &a, ca, &b, cb, &r1);
+					continue;
+				}
 				g_fill = 0xA5;
 				exec_bin(op, &a, ca, &b, cb, cr, 0xA5, &r1);
 				check_bin(op, &a, ca, &b, cb, &r1);
@@ -344,12 +355,14 @@ un_scalar(int op, size_t k, R *kd) {
 }
 
 static void
-run_un_set(int op, const vset_t *sa) {
+run_un_set(int op, const vun_t *vu) {
+	const vset_t *sa = vu->a;
 	size_t i, k, ca, nk; R a, kd; res_t r1, r2;
 
 	for (i = 0; i < sa->n; i ++) {
 		vs_get(sa, i, &a);
 		for (ca = cap_min(&a); ca <= MAXCAP; ca ++) {
+			if (vu->lite && ca != cap_min(&a) && ca != MAXCAP) continue;
 			if (!vh_begin(un_name[op])) continue;
 			d_op = un_name[op]; d_a = a; d_cap = ca; d_set = "its scalar range";
 			vh_publish_desc();
@@ -357,6 +370,12 @@ run_un_set(int op, const vset_t *sa) {
 			for (k = 0; k < nk; k ++) {
 				un_scalar(op, k, &kd);
 				CALL_COUNT();
+				if (vu->lite) {
+					g_fill = ((i ^ k) & 1) ? 0x00 : 0xA5;
+					exec_un(op, &a, ca, &kd, k, g_fill, &r1);
+					check_un(op, &a, ca, &kd, k, &r1);
+					continue;
+				}
 				g_fill = 0xA5;
 				exec_un(op, &a, ca, &kd, k, 0xA5, &r1);
 				check_un(op, &a, ca, &kd, k, &r1);
@@ -420,19 +439,23 @@ run_queries(const vset_t *sa) {
 static void
 run_arith(void) {
 	int op, p;
-#if C01_SCOPE == 0
-	g_digitset = &VS_EX1;
-#else
 	g_digitset = &VS_DX;
-#endif
 	for (op = 0; op < B__N; op ++)
 		for (p = 0; p < g_npairs; p ++)
-			run_bin_pair(op, g_pairs[p].a, g_pairs[p].b);
+			TIMED(bin_name[op], run_bin_pair(op, &g_pairs[p]));
 	for (op = 0; op < U__N; op ++) {
 		if (U_QUERIES == op) continue;
 		for (p = 0; p < g_nunary; p ++)
-			run_un_set(op, g_unary[p]);
+			TIMED(un_name[op], run_un_set(op, &g_unary[p]));
 	}
+#if C01_SCOPE == 0
+	{ vun_t one = { &VS_EX1, 0 };	/* every 1-digit operand with every digit */
+	  g_digitset = &VS_EX1;
+	  TIMED(un_name[U_ADD_DIGIT], run_un_set(U_ADD_DIGIT, &one));
+	  TIMED(un_name[U_SUB_DIGIT], run_un_set(U_SUB_DIGIT, &one));
+	  TIMED(un_name[U_MULT_DIGIT], run_un_set(U_MULT_DIGIT, &one));
+	  g_digitset = &VS_DX; }
+#endif
 	for (p = 0; p < g_nunary; p ++)
-		run_queries(g_unary[p]);
+		TIMED("queries", run_queries(g_unary[p].a));
 }
